@@ -347,6 +347,17 @@ class CellRun:
             if noise:
                 await sleep(0)
             before = op.state(obj)
+            transient = []
+            sampling = [False]
+
+            def sample():
+                # a call made in a cancelled scope must not perform its effect even for a moment: look at the object
+                # after every loop cycle while the call is in progress (e.g. Condition.wait must keep the lock)
+                if sampling[0] and not transient:
+                    now = op.state(obj)
+                    if now != before:
+                        transient.append(now)
+            loop.post_iteration.append(sample)
             ran = []
             outcome = None
             exc = None
@@ -356,8 +367,12 @@ class CellRun:
                 nonlocal outcome, exc
                 loop.call_soon(ran.append, 1)
                 self.h.rec("call", op.name)
+                sampling[0] = True
                 try:
-                    await op.call(obj)
+                    try:
+                        await op.call(obj)
+                    finally:
+                        sampling[0] = False
                 except get_cancelled_exc_class() as e:
                     outcome = "cancelled"
                     self.h.rec("cancelled")
@@ -424,6 +439,9 @@ class CellRun:
                                        f"cancelled scope instead of raising the cancellation exception")
                 if after != before:
                     self.v("effect", f"the call in a cancelled scope changed the object: {before} -> {after}")
+                elif transient:
+                    self.v("effect", f"the call in a cancelled scope performed its effect before it raised: the object was "
+                                     f"{before}, became {transient[0]} while the call was in progress and was restored")
             else:
                 if outcome == "cancelled":
                     self.v("spurious_cancel", "raised a cancellation although the caller's scope is not effectively cancelled")
